@@ -338,12 +338,15 @@ func propagates(c *Ctx, e ssa.Value, def ssa.Instruction) (bool, string) {
 			exits := false
 			for _, ins := range b.Instrs {
 				if noReturnCall(ins) {
-					if call := ins.(*ssa.Call); len(call.Call.Args) == 1 {
-						if k, ok := call.Call.Args[0].(*ssa.Const); ok && k.Int64() != 0 {
-							exits = true
-						}
+					// os.Exit(k), log.Fatal*, or a helper of the module that never comes back and ends with one status
+					k, known := exitStatusOf(ins, 0)
+					if known && k != 0 {
+						exits = true
 					}
 					if !exits {
+						if !known {
+							return false, "the error branch ends the process with a status that is not one constant at " + c.Pos(ins.Pos())
+						}
 						return false, "the error branch exits with status 0 at " + c.Pos(ins.Pos())
 					}
 				}
